@@ -88,7 +88,17 @@ def run_shard(shard_prop, bins, workdir, tier):
                 continue
             valid = prop == 'C05' or rng.random() < 0.3
             finite = prop == 'C04'
-            m = treegen.gen_tree(rng, maxdepth=rng.choice([1, 2, 3, 4, 6]), valid_utf8=valid, finite=finite if prop != 'C09' else rng.random() < 0.8)
+            m = treegen.gen_tree(rng, maxdepth=rng.choice([1, 2, 3, 4, 6]), valid_utf8=valid, finite=finite if prop != 'C09' else rng.random() < 0.8, const_keys=rng.random() < 0.3)
+            if rng.random() < 0.25:
+                # ownership flags must not change the text: string / scalar / container members attached by reference
+                st = [m]
+                while st:
+                    q = st.pop()
+                    for k in (q.kids or []):
+                        if rng.random() < 0.2:
+                            k.ref = True
+                        else:
+                            st.append(k)
             mode = 1 if treegen.has_nonfinite(m) else 0
             trees.append((['build 1 ' + to_tn(m)], m, mode, 'built'))
     else:
